@@ -21,10 +21,15 @@ Tag(w) == w
 
 Agree(dom, val) == {a \in Assignments(K) : \A j \in 1..Len(dom) : dom[j] # 0 => a[dom[j]] = val[j]}
 
+(* a call may be about the negation of the formula of the case (the same formula value is used by   *)
+(* several calls of a case: what a call leaves behind in the value shows in the next one)            *)
+Neg(e) == "neg" \in DOMAIN e /\ e.neg
+TTOf(e) == IF Neg(e) THEN Assignments(K) \ tt ELSE tt
 SolveWhy(e) ==
-  IF e.isNil # (tt = {}) THEN (IF e.isNil THEN "bf-nil-on-satisfiable" ELSE "bf-model-on-unsatisfiable")
+  LET T == TTOf(e) IN
+  IF e.isNil # (T = {}) THEN (IF e.isNil THEN "bf-nil-on-satisfiable" ELSE "bf-model-on-unsatisfiable")
   ELSE IF e.isNil THEN ""
-  ELSE IF ~(Agree(e.dom, e.val) \subseteq tt) THEN "bf-model-falsifies-formula"
+  ELSE IF ~(Agree(e.dom, e.val) \subseteq T) THEN "bf-model-falsifies-formula"
   ELSE ""
 
 (* ---- C12: the exported problem ------------------------------------------ *)
@@ -45,13 +50,13 @@ DimacsWhy(e) ==
        (* auxiliary variables by propagation); a conflict means the model is lost                   *)
        LET EC == {Range(e.clauses[j]) : j \in 1..Len(e.clauses)}
            Asserted(a) == {IF a[v] THEN DimOf(e, v) ELSE -DimOf(e, v) : v \in Mapped(e)}
-       IN IF \E a \in tt : UP(EC, Asserted(a)) = CONFLICT THEN "dimacs-formula-model-lost"
+       IN IF \E a \in TTOf(e) : UP(EC, Asserted(a)) = CONFLICT THEN "dimacs-formula-model-lost"
           ELSE ""
   ELSE LET EM == ExportModels(e)
            (* formula assignments that agree with export model x on the mapped names *)
            Ext(x) == {a \in Assignments(K) : \A v \in Mapped(e) : a[v] = x[DimOf(e, v)]}
-       IN IF \E x \in EM : ~(Ext(x) \subseteq tt) THEN "dimacs-export-model-falsifies-formula"
-          ELSE IF \E a \in tt : ~\E x \in EM : a \in Ext(x) THEN "dimacs-formula-model-lost"
+       IN IF \E x \in EM : ~(Ext(x) \subseteq TTOf(e)) THEN "dimacs-export-model-falsifies-formula"
+          ELSE IF \E a \in TTOf(e) : ~\E x \in EM : a \in Ext(x) THEN "dimacs-formula-model-lost"
           ELSE ""
 
 (* ---- C17: parsing -------------------------------------------------------- *)
